@@ -134,6 +134,13 @@ CLAIMS["C10"] = (
     "DESIGN.md §2 C10",
 )
 
+CLAIMS["C05"] = (
+    "table-index provenance rules per registered modulator/demodulator pair (search / inverse-map / natural-binary idioms), tabulation of the bit-group -> index kernel for all 2^b groups with the checker's own arithmetic (fragment evaluator over the syntax tree), constant folding of literal label tables, sign-composition on {0,1}, typestate of the memory buffers, enumeration of guards on valid bit inputs",
+    "For the 11 registered pairs: the modulator's bit group -> point index map and the demodulator's nearest index -> bits map go through the same point table and label table by the same index (QAM/PAM search idiom), or through a map built as the inverse of the label table (PSK), or through the natural-binary integer with a label table whose row i is binary(i) in every configuration (QPSK, DPSK, pi/4-QPSK); the integer kernel is MSB-first for all 2^b groups; a block-wise nearest-point search must cover every symbol; BPSK/OQPSK amplitude and sign test compose to the identity; bits are grouped by log2(order) behind a divisibility error and the reference modulator receives the demodulator's own parameters; state is written only in training mode, reset_state restores the registered initial value, DPSK encodes y[i]=y[i-1]*shift and detects y[1:]*conj(y[:-1]), OQPSK delays only the quadrature rail, pi/4-QPSK alternates identically on both sides; every hard-branch return is a bit tensor; no valid bit input (all 1-2 symbol inputs, 1-D and batched) reaches a path that re-reads the argument as symbol indices. Three recorded findings (DPSK Gray index, pi/4-QPSK 1-D index output and short 1-D inputs read as indices) are pinned by the test suite.",
+    "Trusted: constfold/frag evaluation of the index kernels and guards (no repository code runs), C14's label-generator recogniser, torch argmin / advanced indexing semantics. Nearest-point arithmetic is C06's, table bijectivity C14's. Unknown shapes -> exit 2.",
+    "DESIGN.md §2 C05",
+)
+
 NOT_APPLICABLE = {
     "C09": "conjunction at run time of C02/C05/C06/C10/C11/C15 over component pairings and adversarial channels; its structural preconditions (stage order, LLR polarity, label agreement, block framing) are decided under C17, C15, C05, C20 - no additional clause is visible in the shape of the code (DESIGN.md §2 C09)",
 }
